@@ -559,6 +559,27 @@ ProjAt(e, paths) ==
         Flat(Nav(pr[i].d, paths[j])) = Flat(Nav(seq[i].d, paths[j]))
 ProjOK == LET e == Enc(seq) IN Defect(e) \/ \A paths \in Projections : ProjAt(e, paths)
 
+\* The cache keeps what a projection loaded (shadow vectors with the nulls
+\* they were built with) and a later fetch of the same object reuses it:
+\* Warm(p, f) is the vector a full fetch builds on an object warmed by the
+\* projection whose load produced p -- what p loaded, the rest from a fresh
+\* load f.  The whole values read that way must be the written sequence.
+RECURSIVE Warm(_, _)
+Warm(p, f) ==
+  CASE p.k = "unloaded" -> f
+    [] p.k = "rec" -> [p EXCEPT !.fields = Eager([j \in 1..Len(p.fields) |-> Warm(p.fields[j], f.fields[j])])]
+    [] p.k \in {"named", "err"} -> [p EXCEPT !.in = Warm(p.in, f.in)]
+    [] OTHER -> p                      \* leaves, and containers (loaded whole)
+WarmAt(e, paths) ==
+  LET path == NewProjection(paths, 1, <<>>)
+      cols == ColsOf(e)
+      ws == Eager([j \in 1..Len(cols) |-> Warm(LV(cols[j], NoMask, 0, NoMask, path), LV(cols[j], NoMask, 0, NoMask, <<>>))])
+      out == IF e.k = "single"
+             THEN Eager([i \in 1..VLen(ws[1]) |-> [t |-> e.types[1], d |-> Ser(ws[1], i)]])
+             ELSE Eager([i \in 1..Len(e.tags) |-> [t |-> e.types[e.tags[i] + 1], d |-> Ser(ws[e.tags[i] + 1], Forward(e.tags, i))]]) IN
+  FlatSeq(out) = FlatSeq(seq)
+WarmOK == LET e == Enc(seq) IN Defect(e) \/ \A paths \in Projections : WarmAt(e, paths)
+
 \* ---- export: the case, the predicted column tree and both predicted reads
 RECURSIVE Shape(_)
 Shape(col) ==      \* what the harness can read off the real metadata
